@@ -27,6 +27,7 @@ func checkC07(p *Prog, r *Report) {
 	r.Explain("Byte order enters the Exif decoders in exactly one way — a utils.ByteOrder value taken from the payload's TIFF header — and the rules decide that nothing else can make a result depend on it. BO-SRC: the payload packages (exif2 and its sub-packages, tiff) never name encoding/binary's byte orders; every call of a utils.ByteOrder method in the library has a receiver that flows from a ByteOrder field (Tag, Ifd, ExifHeader), a BinaryOrder result or a parameter — never a constant; every NewTag/NewIFD passes such an order. BO-BRANCH: outside meta/utils no utils.ByteOrder value is compared with BigEndian or LittleEndian (only the validity test against UnknownEndian is allowed), so no code path is chosen by the order. BO-WHOLE: the result of an order-aware read (Uint16/32/64) and the raw offset slot Tag.ValueOffset are never shifted or masked in the payload packages — splitting a value by hand is only right for one order. BO-PAIR: where Tag.EmbeddedValue re-serialises the offset slot into the scratch buffer, every order-aware read of that buffer in the same function uses the same tag's order. BO-SYM: in meta/utils each ByteOrder method calls the same-named method of binary.BigEndian exactly when the receiver is BigEndian and binary.LittleEndian otherwise, and BinaryOrder maps \"MM\\0*\"/\"II*\\0\" to BigEndian/LittleEndian. Equality of decoded values across the two orders is then a consequence; it is not computed.")
 	r.Trusted("encoding/binary's two byte orders", "TIFF 6.0: II = little-endian, MM = big-endian")
 	nSrc, nCalls := 0, 0
+	decomp := decomposingParams(p)
 	for _, f := range p.AllLibFns() {
 		rel := ""
 		g := f
@@ -55,6 +56,14 @@ func checkC07(p *Prog, r *Report) {
 				if sc == nil {
 					return
 				}
+				// BO-WHOLE across a call: an order-read value handed to a parameter the callee takes apart
+				if inPayload || rel == "meta/utils" {
+					for ai, a := range x.Call.Args {
+						if src := orderedSource(a, 0); src != "" && decomp[sc] != nil && decomp[sc][ai] != "" {
+							r.Bad("BO-WHOLE", fmt.Sprintf("%s | %s passed to %s, which takes it apart (%s)", fnName(f), src, fnName(sc), decomp[sc][ai]), at, "a value read with the payload's byte order (or the raw offset slot) is taken apart with shifts/masks/truncation in the callee: that is only right for one of the two orders")
+						}
+					}
+				}
 				// calls of ByteOrder methods
 				if sc.Signature.Recv() != nil && isByteOrderType(sc.Signature.Recv().Type()) && rel != "meta/utils" {
 					m := sc.Name()
@@ -81,6 +90,13 @@ func checkC07(p *Prog, r *Report) {
 								r.OK("BO-SRC", key, at, "order flows from the payload")
 							}
 						}
+					}
+				}
+			case *ssa.Convert:
+				// BO-WHOLE: truncation to a narrower integer keeps the low bytes only
+				if (inPayload || rel == "meta/utils") && narrowing(x) {
+					if src := orderedSource(x.X, 0); src != "" && src == "Tag.ValueOffset" {
+						r.Bad("BO-WHOLE", fmt.Sprintf("%s | truncation of %s to %s", fnName(f), src, x.Type()), at, "the raw offset slot is cut down to its low bytes: an embedded value sits in different bytes of the slot per byte order")
 					}
 				}
 			case *ssa.BinOp:
@@ -156,6 +172,115 @@ func orderProvenance(v ssa.Value, depth int) string {
 		return ""
 	}
 	return "of unknown origin (" + shortVal(v) + ")"
+}
+
+// narrowing: an integer conversion to a type of smaller size.
+func narrowing(c *ssa.Convert) bool {
+	from, ok1 := c.X.Type().Underlying().(*types.Basic)
+	to, ok2 := c.Type().Underlying().(*types.Basic)
+	if !ok1 || !ok2 || from.Info()&types.IsInteger == 0 || to.Info()&types.IsInteger == 0 {
+		return false
+	}
+	sz := func(b *types.Basic) int {
+		switch b.Kind() {
+		case types.Int8, types.Uint8:
+			return 1
+		case types.Int16, types.Uint16:
+			return 2
+		case types.Int32, types.Uint32:
+			return 4
+		}
+		return 8
+	}
+	return sz(to) < sz(from)
+}
+
+// decomposingParams: for every library function, the integer parameters that the function (or a callee it hands them
+// to) shifts, masks or truncates — param index → what is done. Fixpoint over the call graph's static edges.
+func decomposingParams(p *Prog) map[*ssa.Function]map[int]string {
+	out := map[*ssa.Function]map[int]string{}
+	var fromParamD func(f *ssa.Function, v ssa.Value, depth int, seen map[ssa.Value]bool) int
+	fromParamD = func(f *ssa.Function, v ssa.Value, depth int, seen map[ssa.Value]bool) int {
+		if depth > 10 || seen[v] {
+			return -1
+		}
+		seen[v] = true
+		switch x := v.(type) {
+		case *ssa.Parameter:
+			for i, q := range f.Params {
+				if q == x {
+					return i
+				}
+			}
+		case *ssa.Convert:
+			if !narrowing(x) {
+				return fromParamD(f, x.X, depth+1, seen)
+			}
+		case *ssa.ChangeType:
+			return fromParamD(f, x.X, depth+1, seen)
+		case *ssa.Phi:
+			// a loop variable that starts as the parameter (v = param; …; v >>= 8)
+			for _, e := range x.Edges {
+				if i := fromParamD(f, e, depth+1, seen); i >= 0 {
+					return i
+				}
+			}
+		case *ssa.BinOp:
+			// the remainder of a value that is being taken apart
+			if x.Op == token.SHR || x.Op == token.SHL || x.Op == token.AND {
+				return fromParamD(f, x.X, depth+1, seen)
+			}
+		}
+		return -1
+	}
+	fromParam := func(f *ssa.Function, v ssa.Value) int {
+		return fromParamD(f, v, 0, map[ssa.Value]bool{})
+	}
+	set := func(f *ssa.Function, i int, why string) bool {
+		if i < 0 || !isIntType(f.Params[i].Type()) {
+			return false
+		}
+		if out[f] == nil {
+			out[f] = map[int]string{}
+		}
+		if out[f][i] != "" {
+			return false
+		}
+		out[f][i] = why
+		return true
+	}
+	for changed, round := true, 0; changed && round < 8; round++ {
+		changed = false
+		for _, f := range p.AllLibFns() {
+			eachInstr(f, func(_ *ssa.BasicBlock, _ int, in ssa.Instruction) {
+				switch x := in.(type) {
+				case *ssa.BinOp:
+					if x.Op == token.SHR || x.Op == token.SHL || x.Op == token.AND {
+						if set(f, fromParam(f, x.X), x.Op.String()+" in "+fnName(f)) {
+							changed = true
+						}
+					}
+				case *ssa.Convert:
+					if narrowing(x) {
+						if set(f, fromParam(f, x.X), "truncation to "+x.Type().String()+" in "+fnName(f)) {
+							changed = true
+						}
+					}
+				case *ssa.Call:
+					if sc := x.Call.StaticCallee(); sc != nil && out[sc] != nil {
+						for ai, a := range x.Call.Args {
+							if why := out[sc][ai]; why != "" {
+								if set(f, fromParam(f, a), why) {
+									changed = true
+								}
+							}
+						}
+					}
+				}
+			})
+		}
+	}
+	return out
 }
 
 // orderedSource: v derives (through conversions) from a ByteOrder.UintN result or a load of Tag.ValueOffset.
